@@ -27,6 +27,8 @@
 #include "meta.h"
 #include "values.h"
 #include "io.h"
+#include "message.h"
+#include "array.h"
 #include "vf.h"
 
 const char *vf_name = "c19_cxx";
@@ -77,6 +79,13 @@ static bool read_elem(mpt::iterator &it, Elem &e, const char *what)
 		VF_CHECK(sp && sp->size() >= 0 && (sp->begin() || !sp->size()), "cxx:value:type", "%s: character vector value without data", what);
 		e.type = v->type();
 		e.bytes.assign(reinterpret_cast<const uint8_t *>(sp->begin()), reinterpret_cast<const uint8_t *>(sp->begin()) + sp->size());
+		return true;
+	}
+	if ((int) v->type() == 's') {
+		const char *str = v->data() ? *static_cast<const char * const *>(v->data()) : 0;
+		VF_CHECK(str != 0, "cxx:value:type", "%s: string value without text", what);
+		e.type = VEC_CHAR;   /* same content as a terminated character vector */
+		e.bytes.assign(reinterpret_cast<const uint8_t *>(str), reinterpret_cast<const uint8_t *>(str) + strlen(str) + 1);
 		return true;
 	}
 	int sz = type_size(v->type());
@@ -379,6 +388,152 @@ static void case_io_buffer(vf_rng *r)
 	m->unref();
 	vf_sample("%s", desc.c_str());
 }
+
+/* ----------------------------------------- io::buffer: typed arrays, refills */
+/* walk an iterator with the documented loop and compare with the expected elements */
+static void walk_expect(mpt::iterator &it, const std::vector<Elem> &want, size_t from, const char *what, const char *stage)
+{
+	size_t i = from;
+	for (;;) {
+		Elem e;
+		bool have = read_elem(it, e, what);
+		if (i >= want.size()) { VF_CHECK(!have, "cxx:walk:extra-element", "%s (%s): element %s behind the %zu expected ones", what, stage, e.show().c_str(), want.size()); break; }
+		VF_CHECK(have, "cxx:walk:missing-element", "%s (%s): no value at element %zu of %zu (expected %s)", what, stage, i, want.size(), want[i].show().c_str());
+		VF_CHECK(e == want[i], "cxx:walk:element", "%s (%s): element %zu is %s, expected %s", what, stage, i, e.show().c_str(), want[i].show().c_str());
+		vf_count("monitor:walked-elements", 1);
+		vf_at("iterator::advance");
+		int rr = it.advance();
+		vf_count("iterator::advance", 1);
+		i++;
+		VF_CHECK(i < want.size() ? rr > 0 : rr == 0, "cxx:advance:result", "%s (%s): advance() to element %zu of %zu returned %d", what, stage, i, want.size(), rr);
+		if (i >= want.size()) { VF_CHECK(!read_elem(it, e, what), "cxx:value:past-end", "%s (%s): value behind the last element", what, stage); break; }
+	}
+}
+static const char *word_pool[] = { "", "a", "bc", "alpha", "gamma3", "dd", "e", "a much longer element than the others, longer than sixty four bytes in total", "1.5", "x=1" };
+/* text array with content type as mpt_array_message() makes it */
+static void case_typed_array(vf_rng *r)
+{
+	int n = 1 + (int) vf_below(r, 7);
+	std::string raw, desc = "typed text array [";
+	std::vector<Elem> want, want_s;
+	vf_fp_u64(0x7a);
+	for (int i = 0; i < n; i++) {
+		std::string w = word_pool[1 + vf_below(r, 9)];
+		desc += (i ? ",\"" : "\"") + w + "\"";
+		raw.append(w.c_str(), w.size() + 1);
+		want.push_back(text_elem(w));
+		want_s.push_back(text_elem(w));
+	}
+	desc += "]";
+	vf_fp(raw.data(), raw.size());
+	vf_log("%s", desc.c_str());
+	if (n >= 2) vf_nontrivial();
+	char *blk = static_cast<char *>(vf_xalloc(raw.size()));
+	memcpy(blk, raw.data(), raw.size());
+	mpt::message msg(blk, raw.size());
+	mpt::array a;
+	vf_at("mpt_array_message");
+	int na = mpt::mpt_array_message(&a, &msg, 0);
+	vf_xfree(blk, raw.size());
+	VF_CHECK(na == n, "cxx:create:refused", "mpt_array_message of %d arguments returned %d", n, na);
+	const mpt::array::content *c = a.data();
+	if (c && c->content_traits()) vf_count("state:typed-text-array", 1);
+	/* io::buffer over it */
+	{
+		mpt::io::buffer::metatype *m = mpt::io::buffer::metatype::create(&a);
+		VF_CHECK(m != 0, "cxx:create:refused", "io::buffer::metatype::create failed");
+		mpt::iterator *it = m;
+		vf_count("io::buffer", 1);
+		walk_expect(*it, want, 0, desc.c_str(), "io::buffer, fresh");
+		vf_at("iterator::reset");
+		int rr = it->reset();
+		if (rr < 0 || (size_t) rr != raw.size()) { if (!vf_known("cxx:reset:nothing-replayed")) VF_CHECK(rr >= 0 && (size_t) rr == raw.size(), "cxx:reset:nothing-replayed", "%s: io::buffer::reset() returned %d, the array holds %zu bytes", desc.c_str(), rr, raw.size()); }
+		else {
+			walk_expect(*it, want, 0, desc.c_str(), "io::buffer, after reset");
+			/* clone in the middle */
+			it->reset();
+			size_t p = vf_below(r, (uint32_t) n + 1);
+			for (size_t i = 0; i < p; i++) it->advance();
+			mpt::io::buffer::metatype *cl = m->clone();
+			vf_count("io::buffer::clone", 1);
+			if (cl) { mpt::iterator *ci = cl; walk_expect(*ci, want, p, desc.c_str(), "io::buffer clone"); cl->unref(); }
+			walk_expect(*it, want, p, desc.c_str(), "io::buffer after cloning");
+		}
+		m->unref();
+	}
+	/* the C buffer iterator over the same array */
+	{
+		vf_at("mpt_meta_buffer");
+		mpt::metatype *mt = mpt::mpt_meta_buffer(&a);
+		VF_CHECK(mt != 0, "cxx:create:refused", "mpt_meta_buffer on the typed array failed");
+		mpt::iterator *it = 0;
+		VF_CHECK(mt->convert(mpt::TypeIteratorPtr, &it) >= 0 && it, "cxx:create:no-iterator", "mpt_meta_buffer: no iterator");
+		vf_count("mpt_meta_buffer", 1);
+		walk_expect(*it, want_s, 0, desc.c_str(), "mpt_meta_buffer");
+		it->reset();
+		walk_expect(*it, want_s, 0, desc.c_str(), "mpt_meta_buffer after reset");
+		mt->unref();
+	}
+	vf_sample("%s", desc.c_str());
+}
+/* several batches written into one io::buffer */
+static void case_refill(vf_rng *r)
+{
+	int batches = vf_range(r, 2, 4);
+	std::string desc = "io::buffer refill:";
+	std::vector<Elem> unread;     /* elements written and not yet stepped over */
+	mpt::io::buffer::metatype *m = mpt::io::buffer::metatype::create(0);
+	mpt::iterator *it = m;
+	vf_fp_u64(0xf111);
+	vf_nontrivial();
+	for (int b = 0; b < batches; b++) {
+		int n = 1 + (int) vf_below(r, 4);
+		bool partial = !unread.empty();
+		std::vector<Elem> batch;
+		desc += " write[";
+		for (int i = 0; i < n; i++) {
+			std::string w = word_pool[vf_below(r, 10)];
+			desc += (i ? ",\"" : "\"") + w.substr(0, 12) + "\"";
+			vf_fp(w.c_str(), w.size() + 1);
+			vf_at("io::buffer::write");
+			VF_CHECK(m->write(1, w.c_str(), w.size() + 1) == 1, "cxx:create:refused", "%s: write failed", desc.c_str());
+			batch.push_back(text_elem(w));
+			unread.push_back(text_elem(w));
+		}
+		desc += "]";
+		vf_log("%s", desc.c_str());
+		vf_count(partial ? "refill:into-partially-consumed" : "refill:into-consumed-or-fresh", 1);
+		/* how far this batch is walked: to the end, or part of it */
+		size_t steps = (b + 1 == batches || vf_chance(r, 1, 2)) ? unread.size() : vf_below(r, (uint32_t) unread.size());
+		char st[40];
+		snprintf(st, sizeof(st), "batch %d", b + 1);
+		if (steps == unread.size()) {
+			walk_expect(*it, unread, 0, desc.c_str(), st);
+			if (!partial) {
+				/* everything before was consumed when this batch was written: reset replays this batch */
+				vf_at("iterator::reset");
+				int rr = it->reset();
+				VF_CHECK(rr >= 0, "cxx:reset:refused", "%s: reset() returned %d", desc.c_str(), rr);
+				walk_expect(*it, batch, 0, desc.c_str(), "after reset");
+				vf_count("refill:reset-replays", 1);
+			}
+			unread.clear();
+			desc += " walk-all";
+		} else {
+			for (size_t i = 0; i < steps; i++) {
+				Elem e;
+				if (vf_chance(r, 1, 2)) { bool have = read_elem(*it, e, desc.c_str()); VF_CHECK(have && e == unread[i], "cxx:walk:element", "%s (%s): element %zu is %s, expected %s", desc.c_str(), st, i, have ? e.show().c_str() : "<none>", unread[i].show().c_str()); }
+				int rr = it->advance();
+				VF_CHECK(rr > 0, "cxx:advance:result", "%s (%s): advance() over element %zu of %zu unread returned %d", desc.c_str(), st, i, unread.size(), rr);
+			}
+			unread.erase(unread.begin(), unread.begin() + steps);
+			desc += " walk-" + std::to_string(steps);
+		}
+	}
+	m->unref();
+	vf_count("io::buffer refill", 1);
+	vf_sample("%s", desc.substr(0, 700).c_str());
+}
 /* iterator that only supplies value(): the interface defaults report "no further element" */
 class single : public mpt::iterator
 {
@@ -408,7 +563,7 @@ extern "C" uint64_t vf_cases(void) { return n_cases(); }
 extern "C" void vf_case(uint64_t idx, vf_rng *r)
 {
 	(void) idx;
-	switch (vf_below(r, 17)) {
+	switch (vf_below(r, 21)) {
 	case 0: case 1: case_source<double>("double", 'd', r); break;
 	case 2: case_source<float>("float", 'f', r); break;
 	case 3: case_source<int32_t>("int32_t", 'i', r); break;
@@ -421,6 +576,8 @@ extern "C" void vf_case(uint64_t idx, vf_rng *r)
 	case 10: case_source<uint64_t>("uint64_t", 't', r); break;
 	case 11: case 12: case_c_iterator(r); break;
 	case 13: case 14: case 15: case_io_buffer(r); break;
+	case 16: case 17: case_typed_array(r); break;
+	case 18: case 19: case_refill(r); break;
 	default: case_default(r);
 	}
 }
